@@ -279,10 +279,11 @@ Print Assumptions C03_driver_chunking_independent_no_pauses.
 (* ------------------------------------------------------------------ the tree builder's side, continued *)
 (* coq/Tree/TreeFrame.v, TreeSplitBody.v, TreeSplitRun.v.  The statement for whole token lists is _partial: it is
    restricted to cuts that happen in a covered state (TreeSplitRun.covered_at: foster parenting off, the current node
-   not a template element, and the insertion mode "text", or "in body" / "in caption" / "in template" with an HTML
-   adjusted current node).  Not covered: the table-text queue and its flush, the modes whose character arm answers
-   SplitWhitespace (initial .. after head, in column group, after body, the frameset and after-after modes), "in cell",
-   foreign content, foster parenting, a template element as the current node. *)
+   not a template element, the shape assumption of the mode, and the insertion mode "text", or "in body" /
+   "in caption" / "in template" / "in cell" with an HTML adjusted current node, or - in any mode - a token handled by
+   the foreign-content rules).  Not covered: the table-text queue and its flush, the modes whose character arm answers
+   SplitWhitespace (initial .. after head, in column group, after body, the frameset and after-after modes), foster
+   parenting, a template element as the current node. *)
 From HV Require Tree.TreeInvHelpers Tree.TreeInvMain Tree.TreeFrame Tree.TreeSplitBody Tree.TreeSplitRun.
 
 (* the event log of the model is write-only: a token processed from two states that differ only in the log (same
@@ -299,12 +300,15 @@ Theorem C03_tree_event_log_is_write_only :
 Proof. exact TreeSplit.log_irrelevant_holds. Qed.
 Print Assumptions C03_tree_event_log_is_write_only.
 
-(* "in body" and the modes that hand character tokens to it: one character token or two.  The second
-   reconstruct-the-active-formatting-elements is a no-op, frameset-ok is the OR over the pieces, the appends merge *)
+(* "in body" and the modes that hand character tokens to it (in caption, in template, in cell - the last under the
+   shape assumption of that mode: a td / th element is open, which is carried through reconstruct): one character
+   token or two.  The second reconstruct-the-active-formatting-elements is a no-op, frameset-ok is the OR over the
+   pieces, the appends merge *)
 Theorem C03_tree_body_mode_split_partial :
   forall s line line' a b target,
     TreeInvDefs.TInv s ->
-    TreeTypes.mode s = TreeTypes.InBody \/ TreeTypes.mode s = TreeTypes.InCaption \/ TreeTypes.mode s = TreeTypes.InTemplate ->
+    TreeTypes.mode s = TreeTypes.InBody \/ TreeTypes.mode s = TreeTypes.InCaption \/ TreeTypes.mode s = TreeTypes.InTemplate \/
+    (TreeTypes.mode s = TreeTypes.InCell /\ TreeInvRules.Hshape s) ->
     TreeTypes.foster_parenting s = false -> TreeInvHelpers.adjusted_ns s = TreeTypes.ns_html ->
     TreeTypes.vlast (TreeTypes.open_elems s) = Some target ->
     TreeSplit.is_template_node s target = false ->
@@ -464,3 +468,65 @@ Example C03_default_mode_regular_example :
                      (mkmach (init_cfg HData None false) [] [] 0%N) []) = [SSuspend; SSuspend; SSuspend].
 Proof. exact InstBulkTerm.default_regular_ex. Qed.
 Print Assumptions C03_default_mode_regular_example.
+
+(* default-mode chunk independence from a fresh tokenizer WITHOUT regularity hypotheses (Inst/InstTotalDefault.v): the
+   default-mode log is the reference log (no panic value other than the driver's pause limit 96 among the feed entries),
+   so only the fuel bounds and "no 96" remain - and nothing but the fuel bounds for sinks that never pause *)
+From HV Require Inst.InstTotalDefault.
+Theorem C03_default_mode_chunking_independent_total :
+  forall ent c1 sk, InstNoPanic.html_sink_ok sk = true ->
+  forall fuel1 fuel2 inj cs1 cs2 s0 last, InstNoPanic.html_kind_ok s0 = true ->
+  all_nonempty cs1 -> all_nonempty cs2 -> cs1 <> [] -> cs2 <> [] -> concat cs1 = concat cs2 ->
+  (InstTermination.html_fuel (length (concat cs1) + length cs1 * (50 * length inj)) <= fuel1)%nat -> (4 <= fuel1)%nat ->
+  (InstTermination.html_fuel (length (concat cs2) + length cs2 * (50 * length inj)) <= fuel2)%nat -> (4 <= fuel2)%nat ->
+  let f1 := drive_chunked html_flavour false html_table html_simd ent c1 sk fuel1 inj cs1 (mkmach (init_cfg s0 last false) [] [] 0%N) [] in
+  let f2 := drive_chunked html_flavour false html_table html_simd ent c1 sk fuel2 inj cs2 (mkmach (init_cfg s0 last false) [] [] 0%N) [] in
+  ~ In (SPanic 96) (snd f1) -> ~ In (SPanic 96) (snd f2) ->
+  obs (mout (fst f1)) = obs (mout (fst f2)) /\ hd SSuspend (snd f1) = hd SSuspend (snd f2).
+Proof. exact InstTotalDefault.html_default_mode_chunking_independent_total. Qed.
+Print Assumptions C03_default_mode_chunking_independent_total.
+
+Theorem C03_default_mode_chunking_independent_no_pauses :
+  forall ent c1 sk, InstNoPanic.html_sink_ok sk = true ->
+  forall fuel1 fuel2 inj cs1 cs2 s0 last, InstNoPanic.html_sink_never_pauses sk = true -> InstNoPanic.html_kind_ok s0 = true ->
+  all_nonempty cs1 -> all_nonempty cs2 -> cs1 <> [] -> cs2 <> [] -> concat cs1 = concat cs2 ->
+  (InstTermination.html_fuel (length (concat cs1) + length cs1 * (50 * length inj)) <= fuel1)%nat -> (4 <= fuel1)%nat ->
+  (InstTermination.html_fuel (length (concat cs2) + length cs2 * (50 * length inj)) <= fuel2)%nat -> (4 <= fuel2)%nat ->
+  let f1 := drive_chunked html_flavour false html_table html_simd ent c1 sk fuel1 inj cs1 (mkmach (init_cfg s0 last false) [] [] 0%N) [] in
+  let f2 := drive_chunked html_flavour false html_table html_simd ent c1 sk fuel2 inj cs2 (mkmach (init_cfg s0 last false) [] [] 0%N) [] in
+  obs (mout (fst f1)) = obs (mout (fst f2)) /\ hd SSuspend (snd f1) = hd SSuspend (snd f2).
+Proof. exact InstTotalDefault.html_default_mode_chunking_independent_quiet. Qed.
+Print Assumptions C03_default_mode_chunking_independent_no_pauses.
+
+(* ------------------------------------------------------------------ the tree builder's side: foreign content *)
+(* coq/Tree/TreeSplitForeign.v: a character token handled by the foreign-content rules (the adjusted current node is
+   foreign for character tokens: TreeSplitForeign.foreignb), in any insertion mode: one token or two *)
+From HV Require Tree.TreeSplitForeign.
+Theorem C03_tree_foreign_split_partial :
+  forall s line line' a b h target,
+    TreeInvDefs.TInv s -> TreeInvRules.Hshape s -> TreeTypes.foster_parenting s = false ->
+    TreeSplitForeign.adjusted_node s = Some h -> TreeSplitForeign.foreignb s h = true ->
+    TreeTypes.vlast (TreeTypes.open_elems s) = Some target -> TreeSplit.is_template_node s target = false ->
+    a <> [] -> b <> [] ->
+    exists s1 sa s2,
+      TreeModel.process_token (TreeTypes.TChars (a ++ b)) line s = TreeTypes.Ok TreeTypes.SContinue s1 /\
+      TreeModel.process_token (TreeTypes.TChars a) line s = TreeTypes.Ok TreeTypes.SContinue sa /\
+      TreeModel.process_token (TreeTypes.TChars b) line' sa = TreeTypes.Ok TreeTypes.SContinue s2 /\
+      TreeSplit.same_core s1 s2 /\ TreeContractRun.dom_of s1 = TreeContractRun.dom_of s2 /\
+      TreeInvDefs.TInv s1 /\ TreeInvDefs.TInv s2.
+Proof. exact TreeSplitForeign.foreign_mode_split_explicit. Qed.
+Print Assumptions C03_tree_foreign_split_partial.
+
+(* the foreign test of process_to_completion on a character token is that pure function *)
+Theorem C03_tree_foreign_test_on_chars :
+  forall s sp x h, TreeSplitForeign.adjusted_node s = Some h ->
+    TreeModelHelpers.is_foreign (TreeTypes.KChars sp x) s = TreeTypes.Ok (TreeSplitForeign.foreignb s h) s.
+Proof. exact TreeSplitForeign.is_foreign_chars_val. Qed.
+Print Assumptions C03_tree_foreign_test_on_chars.
+
+(* the enlarged side condition is satisfiable too (a test, by computation): <!DOCTYPE html><table><td>yz<svg>uv EOF with
+   "yz" cut in "in cell" and "uv" cut in foreign content *)
+Example C03_tree_split_example_cell_foreign :
+  TreeSplitRun.splits_cov (TreeModel.init_state TreeInvMain.ex_opts) TreeSplitRun.ex_split_whole2 TreeSplitRun.ex_split_pieces2.
+Proof. exact TreeSplitRun.ex_split_covered2. Qed.
+Print Assumptions C03_tree_split_example_cell_foreign.
